@@ -220,12 +220,18 @@ func (fx *FuncExec) alloc(st *State, sort, hint string) string {
 
 // allocStruct allocates a zero-initialised struct object (recursively for
 // struct-valued fields).
-func (fx *FuncExec) allocStruct(st *State, si *StructInfo) string {
+func (fx *FuncExec) allocStruct(st *State, si *StructInfo, skipImm ...map[string]bool) string {
 	r := fx.alloc(st, si.Sort, si.Name)
 	for _, f := range si.Fields {
 		ft := si.FieldT[f]
 		fs := fx.reg.SortOf(ft)
 		zero := fx.reg.Zero(fs)
+		if fx.reg.imm[si.Comp[f]] {
+			if len(skipImm) == 0 || !skipImm[0][f] {
+				st.assume(eq("(imm_"+si.Comp[f]+" "+r+")", zero))
+			}
+			continue
+		}
 		if sub := fx.structValInfo(ft); sub != nil {
 			zero = fx.allocStruct(st, sub)
 		}
@@ -269,6 +275,10 @@ func (fx *FuncExec) copyStruct(st *State, src string, si *StructInfo, quiet bool
 	r := fx.alloc(st, si.Sort, si.Name)
 	for _, f := range si.Fields {
 		comp := si.Comp[f]
+		if fx.reg.imm[comp] {
+			st.assume(eq("(imm_"+comp+" "+r+")", "(imm_"+comp+" "+src+")"))
+			continue
+		}
 		v := sel(fx.H(st, comp), src)
 		if sub := fx.structValInfo(si.FieldT[f]); sub != nil {
 			v = fx.copyStruct(st, v, sub, true)
@@ -282,6 +292,10 @@ func (fx *FuncExec) copyStruct(st *State, src string, si *StructInfo, quiet bool
 func (fx *FuncExec) copyInto(st *State, dst, src string, si *StructInfo, quiet bool) {
 	for _, f := range si.Fields {
 		comp := si.Comp[f]
+		if fx.reg.imm[comp] {
+			fx.oblige(st, "immutable-write", f, eq("(imm_"+comp+" "+dst+")", "(imm_"+comp+" "+src+")"), "struct copy keeps immutable field "+f, fx.curPos)
+			continue
+		}
 		v := sel(fx.H(st, comp), src)
 		if sub := fx.structValInfo(si.FieldT[f]); sub != nil {
 			fx.copyInto(st, sel(fx.H(st, comp), dst), v, sub, quiet)
@@ -326,7 +340,7 @@ func (fx *FuncExec) boxTerm(t Term) Term {
 	if t.T == nil {
 		panic(specError{"cannot box untyped term " + t.S})
 	}
-	if types.IsInterface(t.T) {
+	if types.IsInterface(t.T) && t.Sort == "Any" {
 		return Term{S: t.S, Sort: "Any", T: t.T}
 	}
 	b := fx.reg.Box(t.T)
@@ -378,6 +392,9 @@ func (fx *FuncExec) fieldRead(st *State, base Term, field string, fail func(stri
 	}
 	if comp, ok := si.Comp[field]; ok {
 		ft := si.FieldT[field]
+		if fx.reg.imm[comp] {
+			return Term{S: "(imm_" + comp + " " + base.S + ")", Sort: fx.reg.SortOf(ft), T: ft}
+		}
 		if ft == nil {
 			_, vs := arraySorts(fx.reg.compSort[comp])
 			return Term{S: sel(fx.H(st, comp), base.S), Sort: vs}
